@@ -1,1 +1,226 @@
-fn main() { eprintln!("not built yet"); std::process::exit(2); }
+//! C07 — rebuilding an MPQ archive preserves its file set and contents.
+//!
+//! Bounded exhaustive exploration: every source archive of a finite configuration product
+//! x every rebuild option tuple of a finite option product.  Ground truth (names, bytes,
+//! per-file encryption) comes from the generator in `truth.rs`, never from the library.
+//! Two spaces: `built` (sources produced by the real `ArchiveBuilder`, V1..V4) and `foreign`
+//! (sources produced by the independent writer `refimpl::mpqref`, V1/V2, with features the
+//! builder cannot produce: a `(signature)` entry, single-unit large files, files that are in
+//! the archive but not in its listfile, user-data prefix).
+mod judge;
+mod opts;
+mod repro;
+mod truth;
+
+use judge::*;
+use opts::*;
+use serde_json::{json, Value};
+use truth::*;
+use vcore::*;
+
+// ------------------------------------------------------------------ the two spaces
+
+enum Srcs {
+    Built(Vec<BuiltSrc>),
+    Foreign(Vec<ForeignSrc>),
+}
+
+/// case index = group + n_groups * source  (options vary fastest, simplest source first)
+struct Rebuilds {
+    name: &'static str,
+    tier: Tier,
+    groups: Vec<Group>,
+    srcs: Srcs,
+    scratch: Scratch,
+}
+
+impl Rebuilds {
+    fn new(name: &'static str, tier: Tier) -> Rebuilds {
+        let srcs = if name == "built" { Srcs::Built(built_sources(tier)) } else { Srcs::Foreign(foreign_sources(tier)) };
+        Rebuilds { name, tier, groups: option_groups(tier), srcs, scratch: Scratch::new(if name == "built" { "c07b" } else { "c07f" }) }
+    }
+    fn n_src(&self) -> usize {
+        match &self.srcs {
+            Srcs::Built(v) => v.len(),
+            Srcs::Foreign(v) => v.len(),
+        }
+    }
+    fn split(&self, i: u64) -> (usize, &Group) {
+        let ng = self.groups.len() as u64;
+        ((i / ng) as usize, &self.groups[(i % ng) as usize])
+    }
+}
+
+impl Space for Rebuilds {
+    fn len(&self) -> u64 {
+        (self.groups.len() * self.n_src()) as u64
+    }
+    fn describe(&self, i: u64) -> Value {
+        let (si, g) = self.split(i);
+        let sj = match &self.srcs {
+            Srcs::Built(v) => v[si].json(),
+            Srcs::Foreign(v) => v[si].json(),
+        };
+        json!({"space": self.name, "source": sj, "options": g.json(self.tier)})
+    }
+    fn case_timeout(&self) -> u64 {
+        300
+    }
+    fn run(&self, i: u64) -> CaseResult {
+        let (si, g) = self.split(i);
+        let mut r = CaseResult::new();
+        let src = self.scratch.path(&format!("s{i}.mpq"));
+        let dst = self.scratch.path(&format!("d{i}.mpq"));
+        let _ = std::fs::remove_file(&src);
+        let truth = match &self.srcs {
+            Srcs::Built(v) => {
+                let s = &v[si];
+                r.key = format!("b/{}/{}", s.key(), g.key());
+                let t = s.truth();
+                if let Err(e) = s.build(&t, &src) {
+                    // the generator's own builder call was refused: nothing to rebuild
+                    r.outcome = format!("source-build-err:{}", panic_class("", &e.to_string()));
+                    r.err_return = true;
+                    return r;
+                }
+                t
+            }
+            Srcs::Foreign(v) => {
+                let s = &v[si];
+                r.key = format!("f/{}/{}", s.key(), g.key());
+                let t = s.truth();
+                std::fs::write(&src, s.write(&t)).expect("write source");
+                t
+            }
+        };
+        // every flag combination of the group on the same source; identical symptoms are merged
+        let mut merged: std::collections::BTreeMap<String, (u64, String, Vec<String>)> = Default::default();
+        let mut outcomes: std::collections::BTreeSet<String> = Default::default();
+        let (mut oks, mut refusals) = (0u64, 0u64);
+        for o in &g.opts {
+            let _ = std::fs::remove_file(&dst);
+            let mut rr = CaseResult::new();
+            guard_case(&mut rr, "judge", |x| judge_rebuild(&truth, &src, &dst, o, x));
+            if rr.nontrivial {
+                oks += 1;
+            }
+            if rr.err_return {
+                refusals += 1;
+            }
+            outcomes.insert(rr.outcome.clone());
+            for (k, n) in &rr.counters {
+                r.count(k, *n);
+            }
+            let mut seen = std::collections::BTreeSet::new();
+            for v in rr.viols {
+                if !seen.insert(v.symptom.clone()) {
+                    continue;
+                }
+                let e = merged.entry(v.symptom).or_insert((0, v.detail, vec![]));
+                e.0 += 1;
+                e.2.push(o.flags_string());
+            }
+        }
+        let _ = std::fs::remove_file(&src);
+        let _ = std::fs::remove_file(&dst);
+        for (sym, (n, detail, flags)) in merged {
+            r.viol(sym, format!("{detail} | in {n} of {} flag combinations; (skip_encrypted,skip_signatures,verify,list_only,preserve_order)={}", g.opts.len(), flags.join(",")));
+        }
+        r.count("rebuild_calls", g.opts.len() as u64);
+        r.count("refusals", refusals);
+        r.nontrivial = oks > 0;
+        r.err_return = oks == 0 && refusals > 0;
+        r.outcome = outcomes.into_iter().collect::<Vec<_>>().join("|");
+        r
+    }
+}
+
+fn build(name: &str, _arg: &str, tier: Tier) -> Box<dyn Space> {
+    match name {
+        "built" => Box::new(Rebuilds::new("built", tier)),
+        "foreign" => Box::new(Rebuilds::new("foreign", tier)),
+        _ => panic!("space {name}"),
+    }
+}
+
+fn survey(space: &str, tier: Tier, dump: bool) {
+    // sequential in-process enumeration printing a histogram of symptom classes (development aid)
+    install_panic_hook();
+    let sp = build(space, "", tier);
+    let mut hist: std::collections::BTreeMap<String, (u64, u64, String)> = Default::default();
+    let mut outcomes: std::collections::BTreeMap<String, u64> = Default::default();
+    let stride: u64 = std::env::var("C07_STRIDE").ok().and_then(|s| s.parse().ok()).unwrap_or(1);
+    let mut i = 0;
+    while i < sp.len() {
+        let r = match guarded(|| sp.run(i)) {
+            Ok(r) => r,
+            Err((f, l, m)) => {
+                let mut r = CaseResult::new();
+                r.viol(panic_class(&f, &m), format!("{f}:{l}: {m}"));
+                r.outcome = "panic".into();
+                r
+            }
+        };
+        *outcomes.entry(r.outcome.clone()).or_default() += 1;
+        for v in &r.viols {
+            let e = hist.entry(v.symptom.clone()).or_insert((0, i, format!("{} :: {}", sp.describe(i), v.detail)));
+            e.0 += 1;
+            if dump {
+                println!("{i}\t{}\t{}\t{}", v.symptom, sp.describe(i), v.detail);
+            }
+        }
+        i += stride;
+    }
+    println!("space {space}: {} cases", sp.len());
+    for (o, n) in outcomes {
+        println!("  outcome {n:8}  {o}");
+    }
+    for (s, (n, first, d)) in hist {
+        println!("  viol {n:8}  first={first}  {s}\n        {d}");
+    }
+}
+
+fn main() {
+    let args: Vec<String> = std::env::args().collect();
+    if let Some(p) = args.iter().position(|a| a == "--survey") {
+        let tier = if args.get(p + 2).map(|s| s.as_str()) == Some("thorough") { Tier::Thorough } else { Tier::Quick };
+        survey(&args[p + 1], tier, std::env::var("C07_DUMP").is_ok());
+        return;
+    }
+    if args.iter().any(|a| a == "--repro") {
+        install_panic_hook();
+        std::process::exit(repro::repro());
+    }
+    let Mode::Supervisor(mut c) = start("C07", "exploration", build) else { return };
+    let tier = c.tier;
+    let groups = option_groups(tier);
+    let ng = groups.len();
+    let no: usize = groups.iter().map(|g| g.opts.len()).sum();
+    let nb = built_sources(tier).len();
+    let nf = foreign_sources(tier).len();
+    c.rule = format!(
+        "case = (source archive, option head (target, compression override, block-size override)); inside a case every admitted \
+         combination of the five boolean options is run on the same source, so every (source, option tuple) pair of the bound is \
+         executed ({no} tuples in {ng} heads; counter rebuild_calls). Sources: space `built` = real ArchiveBuilder over file-set shape x \
+         per-file crypto x compression x listfile x attributes x sector shift x format version ({nb} sources); space `foreign` = \
+         independent mpqref writer over V1/V2 x feature shape x crypto x method ({nf} sources). Option tuples: target \
+         {{preserve,V1..V4,modernize}} x compression override {{-,none,zlib,bzip2}} x block-size override {{-,0,8}} x skip_encrypted x \
+         skip_signatures x verify x list_only x preserve_order; quick = all tuples with at most 2 deviations from \
+         RebuildOptions::default(), thorough = full product. A case is non-trivial when rebuild_archive returned Ok for at least one \
+         flag combination (every source holds at least one user file); distinct by (source configuration, option head)."
+    );
+    c.assume("ground truth = the generator's own (name, bytes, encrypted) list; the listed names of a source are the lines of its (listfile) as read by the independent reader refimpl::mpqref (fallback: generator knowledge)");
+    c.assume("a source without (listfile) has no listed names: nothing is demanded to be carried over, but whatever user file is present in the target must be bit-identical and nothing unknown may appear");
+    c.assume("special files (listfile)/(attributes)/(signature) are not compared for content and may or may not be counted by RebuildSummary: counts are judged by interval bounds that hold under either convention");
+    c.assume("rebuild_archive returning Err without leaving a target file is a legitimate refusal (err_return); Err with a target left behind is judged by the target's content");
+    c.assume("compare_archives is required to report no content difference (content_differences empty, no uncompressed-size difference) for every Ok rebuild; set differences and compressed-size/flag differences are not judged");
+    c.assume("the target's entry count is taken from an independent parse (mpqref) of the target's classic block table; the library's own block_table() is the fallback when the independent parse refuses the file");
+    c.run_space("built", "");
+    c.run_space("foreign", "");
+    c.extra_cov.insert("axes".into(), axes_json(tier));
+    c.extra_cov.insert("option_tuples".into(), json!(no));
+    c.extra_cov.insert("option_heads".into(), json!(ng));
+    c.extra_cov.insert("built_sources".into(), json!(nb));
+    c.extra_cov.insert("foreign_sources".into(), json!(nf));
+    c.finish();
+}
